@@ -75,7 +75,7 @@ macro_rules! reg_types {
 
 fn base_runtime() -> Runtime<NoCtx> {
     let mut rt = Runtime::new();
-    reg_types!(rt, copy: [Z0, Za8, B1, B3, H2, W4, Q8, P12, X16], clone: [Zc, T24, Hs]);
+    reg_types!(rt, copy: [Z0, Za8, B1, B3, H2, W4, Q8, P12, X16, A32, A64], clone: [Zc, T24, Hs]);
     rt
 }
 
@@ -872,7 +872,7 @@ fn facts(rep: &mut Report, tier: &str) {
     for i in 0..n {
         let arity = 1 + p.below(7) as usize;
         let ps: Vec<D> = (0..arity)
-            .map(|_| if p.chance(1, 4) { leaves[17 + p.below(12) as usize].clone() } else { (*p.pick(&leaves)).clone() })
+            .map(|_| if p.chance(1, 4) { leaves[17 + p.below(14) as usize].clone() } else { (*p.pick(&leaves)).clone() })
             .collect();
         let ret = (*p.pick(&leaves)).clone();
         let params: Vec<String> = ps.iter().enumerate().map(|(i, t)| format!("a{i}: {}", t.roto())).collect();
